@@ -24,7 +24,7 @@ def snap_shadow(act, cand, ctr, cte):
 def run(ctx: Ctx):
     import_amisc()
     rng = ctx.rng
-    nsys = ctx.pick(8, 60)
+    nsys = ctx.pick(16, 80)
     ctx.rule = ('random feed-forward systems (2-4 polynomial components, with/without a model-fidelity dimension, some components '
                 'without surrogate), trained with fit() for 4-10 iterations; after every iteration the live sets/weights of every '
                 'component and the live predictions (train and test mode) are recorded; simulate_fit() yields are compared with them '
@@ -32,8 +32,12 @@ def run(ctx: Ctx):
     model_lines, model_meta = [], []
     for n in range(nsys):
         np.random.seed(ctx.seed * 7919 + n)
-        system, spec = systems.random_chain_system(rng, with_alpha=True, norms=False,
-                                                   no_surrogate_prob=0.2 if n % 3 == 2 else 0.0, name=f's{n}')
+        if n % 4 == 3:
+            system, lspec = systems.random_loop_system(rng, size=rng.randint(2, 3), name=f's{n}')
+            spec = [{'name': c.name, 'na': 0, 'levels': list(c.data_fidelity), 'has_surrogate': True} for c in system.components]
+        else:
+            system, spec = systems.random_chain_system(rng, with_alpha=True, norms=False,
+                                                       no_surrogate_prob=0.2 if n % 3 == 2 else 0.0, name=f's{n}')
         if not any(c.has_surrogate for c in system.components):
             continue
         niter = rng.randint(4, ctx.pick(8, 12))
@@ -44,10 +48,13 @@ def run(ctx: Ctx):
         def refine_and_record(*a, **k):
             res = orig_refine(*a, **k)
             if res['component'] is not None:
-                ready = all(len(c.active_set) > 0 for c in system.components if c.has_surrogate)
-                live.append({'comps': {c.name: snap_comp(c) for c in system.components if c.has_surrogate},
-                             'ytrain': {k2: np.copy(v) for k2, v in system.predict(xin, index_set='train').items()} if ready else None,
-                             'ytest': {k2: np.copy(v) for k2, v in system.predict(xin, index_set='test').items()} if ready else None})
+                rec = {'comps': {c.name: snap_comp(c) for c in system.components if c.has_surrogate}}
+                for key, mode in (('ytrain', 'train'), ('ytest', 'test')):
+                    try:   # before every component is initialised the live prediction may be NaN or not computable
+                        rec[key] = {k2: np.copy(v) for k2, v in system.predict(xin, index_set=mode).items()}
+                    except Exception:
+                        rec[key] = None
+                live.append(rec)
             return res
         object.__setattr__(system, 'refine', refine_and_record)
         try:
@@ -77,14 +84,18 @@ def run(ctx: Ctx):
                                 f'replayed={rs[diffk[0]]} live={lsnap[diffk[0]]}', {**case, 'iteration': k})
             # predictions with the regenerated structures
             has = [c.name for c in system.components if c.has_surrogate]
-            if live[k]['ytrain'] is None:
-                continue
-            ctx.count('prediction_comparisons')
-            ytr = system.predict(xin, index_set={c: copy.deepcopy(act[c]) for c in has},
-                                 misc_coeff={c: copy.deepcopy(ctr[c]) for c in has})
             test_sets = {c: act[c].union(cand[c]) for c in has}
-            yte = system.predict(xin, index_set=test_sets, misc_coeff={c: copy.deepcopy(cte[c]) for c in has})
-            for mode, got, want in (('train', ytr, live[k]['ytrain']), ('test', yte, live[k]['ytest'])):
+            for mode, want, iset, coeff in (('train', live[k]['ytrain'], act, ctr), ('test', live[k]['ytest'], test_sets, cte)):
+                if want is None:
+                    continue
+                ctx.count('prediction_comparisons')
+                try:
+                    got = system.predict(xin, index_set={c: copy.deepcopy(iset[c]) for c in has},
+                                         misc_coeff={c: copy.deepcopy(coeff[c]) for c in has})
+                except Exception as e:
+                    ctx.violate(f'C18:replay-predict-raises:{mode}', f'iteration {k}: predicting with the replayed structures raised '
+                                f'{type(e).__name__}: {e}', {**case, 'iteration': k})
+                    continue
                 for var in want:
                     if not systems.floats_close(got[var], want[var]):
                         ctx.violate(f'C18:prediction-differs:{mode}',
